@@ -28,6 +28,8 @@ inductive Blocks where
   | nil | cons (b : Block) (bs : Blocks)
 inductive Items where
   | nil | cons (term : Nat) (lead : List Bool) (body : Blocks) (rest : Items)   -- `\item[term]`, blanks (spaces / blank lines), body
+  /-- an item whose body ends in a bare declaration (`\bfseries …`: an environment token without end) holding `dbody` -/
+  | consD (term : Nat) (lead : List Bool) (body : Blocks) (ty : Nat) (dbody : Blocks) (rest : Items)
 inductive Cells where
   | nil | cons (c : Blocks) (rest : Cells)              -- `& cell`
 inductive Rows where
@@ -54,6 +56,8 @@ def Blocks.render (d : Nat) : Blocks → Stream
 def Items.render (d : Nat) : Items → Stream
   | .nil => []
   | .cons term nsp body rest => mkT d (.item term) :: (blanks d nsp ++ (body.render d ++ rest.render d))
+  | .consD term nsp body ty db rest =>
+    mkT d (.item term) :: (blanks d nsp ++ (body.render d ++ (mkT (d + 1) (.begin_ .env ty) :: (db.render (d + 1) ++ rest.render d))))
 def Cells.render (d : Nat) : Cells → Stream
   | .nil => []
   | .cons c rest => mkT d .amp :: mkT d .cell :: (c.render d ++ rest.render d)
@@ -78,6 +82,8 @@ def Blocks.nodes (d : Nat) : Blocks → List Node
 def Items.nodes (d : Nat) : Items → List Node
   | .nil => []
   | .cons term _ body rest => .mk ⟨d, .item term⟩ (body.nodes d) :: rest.nodes d
+  | .consD term _ body ty db rest =>
+    .mk ⟨d, .item term⟩ (body.nodes d ++ [.mk ⟨d + 1, .begin_ .env ty⟩ (db.nodes (d + 1))]) :: rest.nodes d
 def Cells.nodes (d : Nat) : Cells → List Node
   | .nil => []
   | .cons c rest => .mk ⟨d, .cell⟩ (c.nodes d) :: rest.nodes d
@@ -107,6 +113,7 @@ def Blocks.wf : Blocks → Bool
 def Items.wf : Items → Bool
   | .nil => true
   | .cons _ _ body rest => body.startsNonWs && body.wf && rest.wf
+  | .consD _ _ body _ db rest => body.startsNonWs && body.wf && db.wf && rest.wf
 def Cells.wf : Cells → Bool
   | .nil => true
   | .cons c rest => c.wf && rest.wf
@@ -129,6 +136,7 @@ def Blocks.cost : Blocks → Nat
 def Items.cost : Items → Nat
   | .nil => 0
   | .cons _ nsp body rest => body.cost + nsp.length + rest.cost + 4
+  | .consD _ nsp body _ db rest => body.cost + db.cost + nsp.length + rest.cost + 10
 def Cells.cost : Cells → Nat
   | .nil => 0
   | .cons c rest => c.cost + rest.cost + 4
@@ -144,12 +152,16 @@ def Block.isLeaf : Block → Bool
 def Items.length : Items → Nat
   | .nil => 0
   | .cons _ _ _ rest => rest.length + 1
+  | .consD _ _ _ _ _ rest => rest.length + 1
 def Items.terms : Items → List Nat
   | .nil => []
   | .cons t _ _ rest => t :: rest.terms
-def Items.bodies : Items → List Blocks
+  | .consD t _ _ _ _ rest => t :: rest.terms
+/-- what every item must hold: its body, then (if it ends in a declaration) the declaration node with its own content -/
+def Items.children (d : Nat) : Items → List (List Node)
   | .nil => []
-  | .cons _ _ b rest => b :: rest.bodies
+  | .cons _ _ b rest => b.nodes d :: rest.children d
+  | .consD _ _ b ty db rest => (b.nodes d ++ [.mk ⟨d + 1, .begin_ .env ty⟩ (db.nodes (d + 1))]) :: rest.children d
 def Cells.length : Cells → Nat
   | .nil => 0
   | .cons _ rest => rest.length + 1
